@@ -5,40 +5,40 @@
    3.6/3.7 type validation (IsValidImplementationFieldType), transcribed over the specification's own
    view of a type (Named | List | NonNull wrappers).
    Definitions only; proofs in CompatProofs.v. *)
-From ApolloVerif Require Import Base.Chars Ast.TypeRef.
+From ApolloVerif Require Import Base.Chars Ast.Ast Ast.TypeRef.
 
 (* ---------- the code ---------- *)
 
 (* Type::is_non_null, Type::nullable *)
-Definition compat_is_non_null (t : tref) : bool :=
-  match t with TrNonNullNamed _ | TrNonNullList _ => true | _ => false end.
-Definition compat_nullable (t : tref) : tref :=
+Definition compat_is_non_null (t : ty) : bool :=
+  match t with TNonNullNamed _ | TNonNullList _ => true | _ => false end.
+Definition compat_nullable (t : ty) : ty :=
   match t with
-  | TrNamed _ | TrList _ => t
-  | TrNonNullNamed n => TrNamed n
-  | TrNonNullList i => TrList i
+  | TNamed _ | TList _ => t
+  | TNonNullNamed n => TNamed n
+  | TNonNullList i => TList i
   end.
 
 (* Type::is_assignable_to : `match (target, self)`, arms in source order.  Rust's second and third arms
    overlap the first ((NonNullNamed, List) and (NonNullList, Named)); Coq rejects redundant patterns,
    so the overlap is removed from the later arms, which is what first-match semantics does. *)
-Fixpoint compat_is_assignable_to (self target : tref) : bool :=
+Fixpoint compat_is_assignable_to (self target : ty) : bool :=
   match target, self with
-  | (TrNonNullNamed _ | TrNonNullList _), (TrNamed _ | TrList _) => false
-  | TrNamed _, (TrList _ | TrNonNullList _) | TrNonNullNamed _, TrNonNullList _ => false
-  | TrList _, (TrNamed _ | TrNonNullNamed _) | TrNonNullList _, TrNonNullNamed _ => false
-  | TrNonNullNamed lhs, TrNonNullNamed rhs => tref_name_eqb lhs rhs
-  | TrNonNullList lhs, TrNonNullList rhs => compat_is_assignable_to rhs lhs
-  | TrNamed lhs, (TrNamed rhs | TrNonNullNamed rhs) => tref_name_eqb lhs rhs
-  | TrList lhs, (TrList rhs | TrNonNullList rhs) => compat_is_assignable_to rhs lhs
+  | (TNonNullNamed _ | TNonNullList _), (TNamed _ | TList _) => false
+  | TNamed _, (TList _ | TNonNullList _) | TNonNullNamed _, TNonNullList _ => false
+  | TList _, (TNamed _ | TNonNullNamed _) | TNonNullList _, TNonNullNamed _ => false
+  | TNonNullNamed lhs, TNonNullNamed rhs => streq lhs rhs
+  | TNonNullList lhs, TNonNullList rhs => compat_is_assignable_to rhs lhs
+  | TNamed lhs, (TNamed rhs | TNonNullNamed rhs) => streq lhs rhs
+  | TList lhs, (TList rhs | TNonNullList rhs) => compat_is_assignable_to rhs lhs
   end.
 
 (* a default value as far as the rule can see it: the literal `null` or anything else *)
 Inductive compat_value := CvNull | CvOther.
 
 (* ast::VariableDefinition { ty, default_value } and ast::InputValueDefinition { ty, default_value } *)
-Record compat_vardef := { cv_ty : tref; cv_default : option compat_value }.
-Record compat_usage := { cu_ty : tref; cu_default : option compat_value }.
+Record compat_vardef := { cv_ty : ty; cv_default : option compat_value }.
+Record compat_usage := { cu_ty : ty; cu_default : option compat_value }.
 
 Definition compat_is_null (v : compat_value) : bool := match v with CvNull => true | CvOther => false end.
 Definition compat_is_some {A} (o : option A) : bool := match o with Some _ => true | None => false end.
@@ -57,20 +57,20 @@ Definition compat_usage_allowed (variable_def : compat_vardef) (variable_usage :
 
 (* validation/interface.rs is_valid_implementation_field_type, arms in source order;
    `sub abstract maybe_subtype` stands for schema.is_subtype *)
-Fixpoint compat_valid_impl_field_type (sub : str -> str -> bool) (iface impl : tref) : bool :=
+Fixpoint compat_valid_impl_field_type (sub : str -> str -> bool) (iface impl : ty) : bool :=
   match iface, impl with
-  | (TrNonNullNamed _ | TrNonNullList _), (TrNamed _ | TrList _) => false
-  | TrNonNullNamed iface_name, TrNonNullNamed impl_name =>
-      tref_name_eqb iface_name impl_name || sub iface_name impl_name
-  | TrNonNullList iface_inner, TrNonNullList impl_inner =>
+  | (TNonNullNamed _ | TNonNullList _), (TNamed _ | TList _) => false
+  | TNonNullNamed iface_name, TNonNullNamed impl_name =>
+      streq iface_name impl_name || sub iface_name impl_name
+  | TNonNullList iface_inner, TNonNullList impl_inner =>
       compat_valid_impl_field_type sub iface_inner impl_inner
-  | TrNonNullNamed _, TrNonNullList _ | TrNonNullList _, TrNonNullNamed _ => false
-  | TrNamed iface_name, (TrNamed impl_name | TrNonNullNamed impl_name) =>
-      tref_name_eqb iface_name impl_name || sub iface_name impl_name
-  | TrList iface_inner, (TrList impl_inner | TrNonNullList impl_inner) =>
+  | TNonNullNamed _, TNonNullList _ | TNonNullList _, TNonNullNamed _ => false
+  | TNamed iface_name, (TNamed impl_name | TNonNullNamed impl_name) =>
+      streq iface_name impl_name || sub iface_name impl_name
+  | TList iface_inner, (TList impl_inner | TNonNullList impl_inner) =>
       compat_valid_impl_field_type sub iface_inner impl_inner
-  | TrNamed _, (TrList _ | TrNonNullList _) => false
-  | TrList _, (TrNamed _ | TrNonNullNamed _) => false
+  | TNamed _, (TList _ | TNonNullList _) => false
+  | TList _, (TNamed _ | TNonNullNamed _) => false
   end.
 
 (* the part of schema.types that Schema::is_subtype reads *)
@@ -83,10 +83,10 @@ Inductive compat_tydef :=
 Fixpoint compat_types_get (types : list (str * compat_tydef)) (k : str) : option compat_tydef :=
   match types with
   | [] => None
-  | (k', v) :: r => if tref_name_eqb k k' then Some v else compat_types_get r k
+  | (k', v) :: r => if streq k k' then Some v else compat_types_get r k
   end.
 
-Definition compat_contains (l : list str) (k : str) : bool := existsb (tref_name_eqb k) l.
+Definition compat_contains (l : list str) (k : str) : bool := existsb (streq k) l.
 
 (* Schema::is_subtype(abstract_type, maybe_subtype) *)
 Definition compat_is_subtype (types : list (str * compat_tydef)) (abstract_type maybe_subtype : str) : bool :=
@@ -105,12 +105,12 @@ Definition compat_is_subtype (types : list (str * compat_tydef)) (abstract_type 
 (* 3.4.1 Wrapping types: a type is a named type, a List of a type or a Non-Null of a (nullable) type *)
 Inductive sty := SNamed (n : str) | SList (t : sty) | SNonNull (t : sty).
 
-Fixpoint sty_of (t : tref) : sty :=
+Fixpoint sty_of (t : ty) : sty :=
   match t with
-  | TrNamed n => SNamed n
-  | TrNonNullNamed n => SNonNull (SNamed n)
-  | TrList i => SList (sty_of i)
-  | TrNonNullList i => SNonNull (SList (sty_of i))
+  | TNamed n => SNamed n
+  | TNonNullNamed n => SNonNull (SNamed n)
+  | TList i => SList (sty_of i)
+  | TNonNullList i => SNonNull (SList (sty_of i))
   end.
 
 Definition SIsNonNull (t : sty) : Prop := exists u, t = SNonNull u.
